@@ -41,6 +41,14 @@ Proof.
     inversion IH; subst. lia.
 Qed.
 
+(* the generated sortedness test is "strictly increasing" *)
+Lemma sorted_ok_increasing l : sorted_ok l = increasing l.
+Proof.
+  induction l as [|x r IH]; [reflexivity|]. destruct r as [|y r]; [reflexivity|].
+  change (sorted_ok (x :: y :: r)) with (negb (lazy_diff_rejected (y - x)) && sorted_ok (y :: r)).
+  rewrite increasing_cons, IH. f_equal. unfold lazy_diff_rejected. lia.
+Qed.
+
 Lemma all_filled_some g : all_filled (map Some g) = Ok g.
 Proof. unfold all_filled. induction g as [|x r IH]; cbn; [reflexivity|]. cbn in IH. rewrite IH. reflexivity. Qed.
 
@@ -78,7 +86,7 @@ Proof.
   induction l as [|x r IH]; intros first prev Hle Hinc.
   - cbn. now rewrite !app_nil_r.
   - rewrite increasing_cons in Hinc. apply andb_prop in Hinc. destruct Hinc as [H1 H2].
-    cbn [runs]. destruct (x - prev >? 1) eqn:E.
+    cbn [runs]. destruct (lazy_jump (x - prev)) eqn:E; unfold lazy_jump in E.
     + cbn [seg_vals flat_map fst snd]. fold (seg_vals (runs x x r)). rewrite IH by (auto; lia).
       replace (Z.to_nat (x + 1 - x)) with 1%nat by lia. rewrite range_list_1. reflexivity.
     + assert (x = prev + 1) by lia. subst x. rewrite IH by (auto; lia).
@@ -94,23 +102,23 @@ Proof.
   - cbn. inversion Hub; subst. constructor; [cbn; lia|constructor].
   - inversion Hub as [|? ? Hp Hub']; subst.
     rewrite increasing_cons in Hinc. apply andb_prop in Hinc. destruct Hinc as [H3 H4].
-    cbn [runs]. destruct (x - prev >? 1).
+    cbn [runs]. destruct (lazy_jump (x - prev)).
     + constructor; [cbn; lia|]. apply IH; auto; lia.
     + apply IH; auto; lia.
 Qed.
 
 Lemma runs_hd l first prev : fst (hd (0, 0) (runs first prev l)) = first.
-Proof. revert first prev. induction l as [|x r IH]; intros; cbn; [reflexivity|]. destruct (x - prev >? 1); cbn; auto. Qed.
+Proof. revert first prev. induction l as [|x r IH]; intros; cbn [runs]; [reflexivity|]. destruct (lazy_jump (x - prev)); cbn [hd fst]; auto. Qed.
 
 Lemma runs_nonempty l first prev : runs first prev l <> [].
-Proof. destruct l as [|x r]; cbn; [discriminate|]. destruct (x - prev >? 1); [discriminate|].
-  revert first x. induction r as [|y r IH]; intros; cbn; [discriminate|]. destruct (y - x >? 1); [discriminate|apply IH]. Qed.
+Proof. revert first prev. induction l as [|x r IH]; intros; cbn [runs]; [discriminate|].
+  destruct (lazy_jump (x - prev)); [discriminate|apply IH]. Qed.
 
 Lemma runs_last l first prev : snd (last (runs first prev l) (0, 0)) = last (prev :: l) 0 + 1.
 Proof.
   revert first prev. induction l as [|x r IH]; intros; [reflexivity|].
   cbn [runs]. change (last (prev :: x :: r) 0) with (last (x :: r) 0).
-  destruct (x - prev >? 1).
+  destruct (lazy_jump (x - prev)).
   - specialize (IH x x). pose proof (runs_nonempty r x x) as NE. destruct (runs x x r) as [|p l] eqn:E; [congruence|].
     change (last ((first, prev + 1) :: p :: l) (0, 0)) with (last (p :: l) (0, 0)). exact IH.
   - apply IH.
@@ -223,7 +231,7 @@ Lemma adv_plan_gather n l p s : increasing l = true -> adv_plan n l = Ok p -> ax
 Proof.
   intro Hinc. unfold adv_plan. destruct l as [|x r].
   - intro H; injection H as <-. cbn. intro H; injection H as <-. split; [reflexivity|constructor].
-  - destruct ((x <? 0) || (n <=? last (x :: r) 0)) eqn:E; [discriminate|].
+  - unfold lazy_out_of_range. destruct ((x <? 0) || (n <=? last (x :: r) 0)) eqn:E; [discriminate|].
     intro H; injection H as <-. intro G.
     destruct (adv_gather n (dense (zlen (x :: r)) n (zlen (segments (x :: r)))) x r Hinc ltac:(lia) ltac:(lia)) as [D T].
     cbn zeta in D, T. cbn [axis_gather] in G. change (runs x x r) with (segments (x :: r)) in G. rewrite D in G. cbn [bind] in G. rewrite all_filled_some in G.
@@ -374,7 +382,7 @@ Lemma marr_case n l1 p1 qs p s : mapM (wrap_res n) l1 = Ok p1 -> in_range (zlen 
   axis_plan n (MArr (map (znth l1) qs)) = Ok p -> axis_gather n p = Ok s ->
   s = (map (znth p1) qs, false).
 Proof.
-  intros HL Hq HP G. cbn [axis_plan] in HP.
+  intros HL Hq HP G. cbn [axis_plan] in HP. rewrite sorted_ok_increasing in HP.
   destruct (increasing (map (znth l1) qs)) eqn:Hinc; [|discriminate].
   destruct (adv_plan_gather _ _ _ _ Hinc HP G) as [-> Hr]. f_equal.
   apply map_ext_in. intros q Hin.
@@ -447,7 +455,7 @@ Proof.
     + cbn [axis_plan] in EP. destruct (zlen msk =? n) eqn:EL; [|discriminate].
       destruct (adv_plan_gather _ _ _ _ (nonzero_from_increasing 0 msk) EP HS) as [E Hr]. injection E as -> ->.
       exists (nonzero msk). cbn. rewrite EL. repeat split; [|discriminate]. now rewrite Hid.
-    + cbn [axis_plan] in EP. destruct (increasing is) eqn:Hinc; [|discriminate].
+    + cbn [axis_plan] in EP. rewrite sorted_ok_increasing in EP. destruct (increasing is) eqn:Hinc; [|discriminate].
       destruct (adv_plan_gather _ _ _ _ Hinc EP HS) as [E Hr]. injection E as -> ->.
       exists is. cbn. rewrite mapM_wrap_id by assumption. cbn. repeat split; [|discriminate]. now rewrite Hid.
 Qed.
@@ -539,20 +547,20 @@ Qed.
    without first-stage lookup; through a lookup the same holds for the mapped sequence *)
 Lemma axis_rejects n l : increasing l = false \/ (exists x, In x l /\ x < 0) -> axis_sel n None (AList l) = Err.
 Proof.
-  intro H. unfold axis_sel. cbn [map_stage2 bind axis_plan].
+  intro H. unfold axis_sel. cbn [map_stage2 bind axis_plan]. rewrite sorted_ok_increasing.
   destruct (increasing l) eqn:Hinc; [|reflexivity].
   destruct H as [H|[x [Hin Hx]]]; [discriminate|].
   destruct l as [|y r]; [contradiction|]. cbn [adv_plan].
   assert (y <= x). { destruct Hin as [<-|Hin]; [lia|]. pose proof (increasing_lb _ _ Hinc) as Hlb.
                      rewrite Forall_forall in Hlb. specialize (Hlb x Hin). lia. }
-  assert (E : (y <? 0) = true) by lia. rewrite E. reflexivity.
+  unfold lazy_out_of_range. assert (E : (y <? 0) = true) by lia. rewrite E. reflexivity.
 Qed.
 
 Lemma axis_rejects_mapped n l1 is : (forall vs, np_take l1 is = Ok vs -> increasing vs = false) ->
   axis_sel n (Some l1) (AList is) = Err.
 Proof.
   intro H. unfold axis_sel. cbn [map_stage2]. destruct (np_take l1 is) as [vs|] eqn:E; [|reflexivity].
-  cbn [bind axis_plan]. now rewrite (H vs eq_refl).
+  cbn [bind axis_plan]. rewrite sorted_ok_increasing. now rewrite (H vs eq_refl).
 Qed.
 
 (* N-d: an indexer that answers has accepted every axis *)
